@@ -32,44 +32,72 @@ fn chips_of(a: &Action) -> i32 {
 }
 
 
-/// the utility MCCFR learns from: the real `Node::payoff` of a terminal node holding this game.
-/// The node is planted in a real `Tree` (`Tree::empty` + `Tree::plant`); should planting panic
-/// (bucket realisation on an odd state) the node is made directly over a petgraph `DiGraph<Data, Edge>`.
-fn node_payoffs(g: &Game) -> Option<[f32; 2]> {
-    use robopoker::clustering::abstraction::Abstraction;
+/// the utility MCCFR learns from: the real `Node::payoff` at the leaf of the whole line, replayed
+/// in a real `Tree` from the root (`Tree::plant` the freshly dealt hand, `Tree::fork` one Branch
+/// per action with its edge), so that the leaf has its true parent, incoming edge and history.
+/// Should the tree building panic (bucket realisation on an odd raise size …) the same chain is
+/// built directly as a petgraph `DiGraph<Data, Edge>` and the leaf `Node` made over it.
+fn node_payoffs(states: &[Game], hist: &[Action]) -> Option<([f32; 2], &'static str)> {
     use robopoker::cards::street::Street;
-    use robopoker::mccfr::{data::Data, edge::Edge, node::Node, player::Player, tree::Tree};
-    let gg = *g;
+    use robopoker::clustering::abstraction::Abstraction;
+    use robopoker::mccfr::{data::Data, edge::Edge, node::Node, odds::Odds, player::Player, tree::{Branch, Tree}};
+    if states.len() != hist.len() + 1 {
+        return None;
+    }
+    let edge_of = |a: &Action| match a {
+        Action::Fold => Edge::Fold,
+        Action::Check => Edge::Check,
+        Action::Call(_) => Edge::Call,
+        Action::Draw(_) => Edge::Draw,
+        Action::Shove(_) => Edge::Shove,
+        Action::Raise(_) | Action::Blind(_) => Edge::Raise(Odds(1, 1)), // the size lives in the child state
+    };
+    let abs = |g: &Game| Abstraction::from((Street::from(g.street() as isize), 0usize));
+    let (st, hi) = (states.to_vec(), hist.to_vec());
     let via_tree = catch(move || {
         let mut tree = Tree::empty(Player(Turn::Choice(0)));
-        let node = tree.plant(Data::from((gg, Abstraction::from((Street::Pref, 0usize)))));
-        [node.payoff(&Player(Turn::Choice(0))), node.payoff(&Player(Turn::Choice(1)))]
+        let mut head = tree.plant(Data::from((st[0], abs(&st[0])))).index();
+        for (i, a) in hi.iter().enumerate() {
+            head = tree.fork(Branch(Data::from((st[i + 1], abs(&st[i + 1]))), edge_of(a), head)).index();
+        }
+        let leaf = tree.at(head);
+        [leaf.payoff(&Player(Turn::Choice(0))), leaf.payoff(&Player(Turn::Choice(1)))]
     });
-    if via_tree.is_some() {
-        return via_tree;
+    if let Some(u) = via_tree {
+        return Some((u, "Tree::plant+fork"));
     }
+    let (st, hi) = (states.to_vec(), hist.to_vec());
     catch(move || {
         let mut graph: petgraph::graph::DiGraph<Data, Edge> = petgraph::graph::DiGraph::new();
-        let i = graph.add_node(Data::from((gg, Abstraction::from((Street::Pref, 0usize)))));
-        let node = Node::from((i, &graph));
+        let mut head = graph.add_node(Data::from((st[0], Abstraction::from((Street::Pref, 0usize)))));
+        for (i, a) in hi.iter().enumerate() {
+            let leaf = graph.add_node(Data::from((st[i + 1], Abstraction::from((Street::Pref, 0usize)))));
+            graph.add_edge(head, leaf, edge_of(a));
+            head = leaf;
+        }
+        let node = Node::from((head, &graph));
         [node.payoff(&Player(Turn::Choice(0))), node.payoff(&Player(Turn::Choice(1)))]
     })
+    .map(|u| (u, "raw-DiGraph"))
 }
 
 /// `Node::payoff` must be the net result of the hand: reward minus own contribution (own
 /// ledger), and the two payoffs must cancel
-fn check_node_payoff(run: &mut Run, name: &str, g: &Game, rewards: [i32; 2], paid: [i32; 2]) {
+fn check_node_payoff(run: &mut Run, name: &str, states: &[Game], hist: &[Action], rewards: [i32; 2], paid: [i32; 2]) {
     run.spec_checked += 1;
-    match node_payoffs(g) {
+    let g = states.last().unwrap();
+    match node_payoffs(states, hist) {
         None => run.fail("node-payoff-panics", name, "two utilities", "panic"),
-        Some(u) => {
+        Some((u, route)) => {
+            run.count(&format!("node-payoff-route:{route}"));
             let want = [(rewards[0] - paid[0]) as f32, (rewards[1] - paid[1]) as f32];
             if u != want || u[0] + u[1] != 0.0 {
                 run.fail("node-payoff", name, &format!("Node::payoff = reward - contribution = {want:?}, zero-sum"), &format!("{u:?} (sum {})", u[0] + u[1]));
             }
         }
     }
-    run.count("node-payoff");
+    let how = match hist.last() { Some(Action::Fold) => "fold", _ => if g.verif_seats().iter().all(|s| s.1 == 0) { "all-in-runout" } else { "showdown" } };
+    run.count(&format!("node-payoff:{}:{}", street_name(g), how));
 }
 
 thread_local! {
@@ -207,7 +235,7 @@ fn sweep_accepted(run: &mut Run, rng: &mut Rng, deal: &Deal, hist: &[Action], g:
                     match catch(move || last.settlements().iter().map(|s| (s.reward as i32, s.pnl() as i32, s.risked as i32)).collect::<Vec<_>>()) {
                         None => run.fail("settlements-panic", &format!("rewards {} {} | {}", deal.h0, deal.h1, hist_tok(&h2)), "rewards", "panic"),
                         Some(v) => {
-                            check_node_payoff(run, &format!("payoff {} {} | {}", deal.h0, deal.h1, hist_tok(&h2)), &last, [v[0].0, v[1].0], p3);
+                            if okk { check_node_payoff(run, &format!("payoff {} {} | {}", deal.h0, deal.h1, hist_tok(&h2)), &gs, &h2, [v[0].0, v[1].0], p3); }
                             let pot = last.pot() as i32;
                             if v[0].0 + v[1].0 != pot || v[0].1 + v[1].1 != 0 || v[0].0 < 0 || v[1].0 < 0 || v[0].2 != p3[0] || v[1].2 != p3[1] || pot != p3[0] + p3[1] {
                                 run.fail("payout-after-accepted-amount", &format!("rewards {} {} | {}", deal.h0, deal.h1, hist_tok(&h2)),
@@ -359,7 +387,7 @@ fn one_history(run: &mut Run, rng: &mut Rng, deals: &[Deal], h: usize) {
             }
             Some(v) => {
                 run.line(&op, &format!("{} {} {} {}", v[0].0, v[1].0, v[0].1, v[1].1));
-                check_node_payoff(run, &format!("payoff {} {} | {}", deal.h0, deal.h1, hist_tok(&hist)), last, [v[0].0, v[1].0], paid);
+                check_node_payoff(run, &format!("payoff {} {} | {}", deal.h0, deal.h1, hist_tok(&hist)), &states, &hist, [v[0].0, v[1].0], paid);
                 run.spec_checked += 1;
                 let hole = |i: usize| bits(robopoker::cards::hand::Hand::from(seats[i].4));
                 let showdown = !folded[0] && !folded[1];
@@ -408,7 +436,7 @@ fn main() {
     let deals = make_deals(&mut rng, 96);
     SWEPT.with(|c| c.borrow_mut().1 = if a.thorough() { 400_000 } else { 9_000 });
     run.rule = format!(
-        "{n_hist} random histories of the real Game (5 play styles x legal() ∪ every raise size) over {} forced deals (crafted: seat0-wins/seat1-wins/tie, royal flush on the board / in one hand, straight flush vs straight flush, wheels, board-plays, kicker fights; + random), state compared after every action, settlements at the end of every hand, and the real Node::payoff of a tree node holding the final state (= reward - own contribution, zero-sum); at the first visit of a betting state (budget 9k quick / 400k thorough) is_allowed is asked for Raise/Call/Shove/Blind with every amount -1..=STACK+stake+2, every accepted amount is applied and the chip invariants checked on the child, the extremes of each accepted range are played to the end and settled; a case = one visited betting state, non-trivial always (blinds are in), distinct by (pot, seats, ticker, street)",
+        "{n_hist} random histories of the real Game (5 play styles x legal() ∪ every raise size) over {} forced deals (crafted: seat0-wins/seat1-wins/tie, royal flush on the board / in one hand, straight flush vs straight flush, wheels, board-plays, kicker fights; + random), state compared after every action, settlements at the end of every hand, and the real Node::payoff at the leaf of the line replayed in a real Tree (plant + fork per action, true incoming edges) (= reward - own contribution, zero-sum); at the first visit of a betting state (budget 9k quick / 400k thorough) is_allowed is asked for Raise/Call/Shove/Blind with every amount -1..=STACK+stake+2, every accepted amount is applied and the chip invariants checked on the child, the extremes of each accepted range are played to the end and settled; a case = one visited betting state, non-trivial always (blinds are in), distinct by (pot, seats, ticker, street)",
         deals.len()
     );
     for h in 0..n_hist {
